@@ -95,11 +95,6 @@ static struct SparseMatrix *gv_new_SparseMatrixT(const struct SparseMatrix *sm)
 {
   struct SparseMatrix *p = (struct SparseMatrix *)gv_new(sizeof(struct SparseMatrix));
   SparseMatrix_ctorT(p, sm);
-#ifdef GV_EXCL_TRANSPOSE_UNINIT
-  /* exclusion predicate of the known finding "transpose increments the never-initialised slot trptr[cols+2]":
-     the indeterminate value found there is small enough for ncnt_ increments */
-  __CPROVER_assume(p->rptr[sm->cols_ + 2] <= INT_MAX - MAXNNZ);
-#endif
   return p;
 }
 
@@ -328,7 +323,9 @@ __CPROVER_ensures(!SAME(__CPROVER_return_value->nonz, self->nonz) && !SAME(__CPR
                   !SAME(__CPROVER_return_value->rptr, self->rptr))
 //@ entry SparseMatrix_transpose
 GV_CANARY("SparseMatrix_transpose entry");
+#ifndef GV_BOUNDED
 if (self->ncnt_ > 0) GV_INST(ENT_IN(self, 0), WF_ENT(self, 0));      /* an entry exists ==> cols_ >= 1 */
+#endif
 
 //@ loop SparseMatrix_transpose 1
 __CPROVER_assigns(i, __CPROVER_object_whole(trptr))
@@ -338,7 +335,14 @@ __CPROVER_loop_invariant(0 <= i && i <= trows_ + 2 && (i > 1 ==> trptr[1] == 0) 
 __CPROVER_decreases((long)trows_ + 2 - i)
 
 //@ pre SparseMatrix_transpose 2
+#ifndef GV_BOUNDED
 gv_ltm = 0; gv_eqm = 0; gv_G0 = trptr[trows_ + 2];
+#ifdef GV_EXCL_TRANSPOSE_UNINIT
+/* exclusion predicate of the known finding "transpose increments the never-initialised slot trptr[cols_+2]":
+   the indeterminate value found there leaves room for ncnt_ increments */
+__CPROVER_assume(GSMALL);
+#endif
+#endif
 //@ loop SparseMatrix_transpose 2
 __CPROVER_assigns(i, __CPROVER_object_whole(trptr), gv_ltm, gv_eqm)
 __CPROVER_loop_invariant(0 <= i && i <= self->ncnt_ && trptr[1] == 0 && (trows_ >= 1 ==> trptr[2] == 0) &&
@@ -350,6 +354,7 @@ __CPROVER_loop_invariant(0 <= i && i <= self->ncnt_ && trptr[1] == 0 && (trows_ 
                                          LTG + (SEQ0 - gv_seq[i]) <= i && (gv_c0 == trows_ ==> LTG + (SEQ0 - gv_seq[i]) == i))))
 __CPROVER_decreases((long)self->ncnt_ - i)
 //@ head SparseMatrix_transpose 2
+#ifndef GV_BOUNDED
 GV_INST(ENT_IN(self, i), WF_ENT(self, i));
 if (GIN(self)) GV_INST(ENT_IN(self, i), SEQ_AX(self, i));
 /* quantified invariant B2 at the slot about to be incremented (proved above for slots g+1 and g+2) */
@@ -357,8 +362,11 @@ if (!(GIN(self) && (self->cind[i] == gv_c0 || self->cind[i] == gv_c0 - 1))) {
   if (self->cind[i] < trows_) GV_INST(1 <= self->cind[i] && self->cind[i] < trows_, 0 <= trptr[self->cind[i] + 2] && trptr[self->cind[i] + 2] <= i);
   else GV_INST(self->cind[i] == trows_, GSMALL ==> ((long)gv_G0 <= trptr[trows_ + 2] && trptr[trows_ + 2] <= (long)gv_G0 + i));
 }
+#endif
 //@ tail SparseMatrix_transpose 2
+#ifndef GV_BOUNDED
 if (GIN(self)) { if (self->cind[i] == gv_c0 - 1) gv_eqm++; else if (self->cind[i] < gv_c0 - 1) gv_ltm++; }
+#endif
 
 //@ loop SparseMatrix_transpose 3
 __CPROVER_assigns(i, __CPROVER_object_whole(trptr))
@@ -367,10 +375,12 @@ __CPROVER_loop_invariant(3 <= i && i <= GV_MAX(3, trows_ + 2) && trptr[1] == 0 &
                                          (gv_c0 < trows_ ==> trptr[gv_c0 + 2] == (gv_c0 + 2 < i ? LTG + SEQ0 : SEQ0)))))
 __CPROVER_decreases((long)trows_ + 2 - i)
 //@ head SparseMatrix_transpose 3
+#ifndef GV_BOUNDED
 /* quantified invariant K at the two slots added */
 GV_INST(3 <= i && i <= trows_ + 1, 0 <= trptr[i] && trptr[i] <= self->ncnt_ && 0 <= trptr[i - 1] && trptr[i - 1] <= self->ncnt_);
 /* induction on the column: the statement of this loop's invariant for column g-1 (its slot g is final once passed) */
 if (GIN(self) && gv_c0 >= 3) GV_INST(3 <= gv_c0 && gv_c0 <= trows_, gv_c0 < i ==> trptr[gv_c0] == gv_ltm);
+#endif
 
 //@ loop SparseMatrix_transpose 4
 __CPROVER_assigns(r, irb, ire, k, j, __CPROVER_object_whole(trptr), __CPROVER_object_whole(tcind), __CPROVER_object_whole(tnonz))
@@ -380,7 +390,9 @@ __CPROVER_loop_invariant(1 <= r && r <= self->rows_ + 1 && trptr[1] == 0 &&
                                          trptr[gv_c0 + 1] == LTG + SEQ0 - gv_seq[self->rows_ >= 1 ? ire : 0])))
 __CPROVER_decreases((long)self->rows_ + 1 - r)
 //@ head SparseMatrix_transpose 4
+#ifndef GV_BOUNDED
 GV_INST(ROW_IN(self, r), WF_ROW(self, r));
+#endif
 
 //@ loop SparseMatrix_transpose 5
 __CPROVER_assigns(irb, k, j, __CPROVER_object_whole(trptr), __CPROVER_object_whole(tcind), __CPROVER_object_whole(tnonz))
@@ -388,15 +400,19 @@ __CPROVER_loop_invariant(self->rptr[r] <= irb && irb <= ire && trptr[1] == 0 &&
                          (GIN(self) ==> (0 <= gv_seq[irb] && gv_seq[irb] <= SEQ0 && trptr[gv_c0 + 1] == LTG + SEQ0 - gv_seq[irb])))
 __CPROVER_decreases((long)ire - irb)
 //@ head SparseMatrix_transpose 5
+#ifndef GV_BOUNDED
 GV_INST(ENT_IN(self, irb), WF_ENT(self, irb));
 if (GIN(self)) GV_INST(ENT_IN(self, irb), SEQ_AX(self, irb));
 /* quantified invariant Q at the column of the entry being placed (proved for column g by the bounds checks below) */
 if (!(GIN(self) && self->cind[irb] == gv_c0))
   GV_INST(1 <= self->cind[irb] && self->cind[irb] <= trows_, 0 <= trptr[self->cind[irb] + 1] && trptr[self->cind[irb] + 1] < self->ncnt_);
+#endif
 
 //@ post SparseMatrix_transpose 4
+#ifndef GV_BOUNDED
 /* T3 for column g-1 (start of row g = end of row g-1), proved by this same check for the arbitrary column */
 if (GIN(self) && gv_c0 >= 2) GV_INST(2 <= gv_c0 && gv_c0 <= trows_, trptr[gv_c0] == LTG);
+#endif
 //@ end
 
 //@ harness
@@ -471,6 +487,60 @@ void h_transpose(void)
   __CPROVER_assume(gv_seq[S.ncnt_] == 0 && 0 <= gv_seq[0] && gv_seq[0] <= S.ncnt_);
   struct SparseMatrix *T = SparseMatrix_transpose(&S);
   GV_CANARY("h_transpose end");
+}
+
+/* ---- bounded cross-check (no contracts, loops unwound): all matrices with rows, cols <= 3 and nnz <= 4, built
+   through the extracted constructor / new_row / add_element.  Oracle: the multiset of (row, column, value) triples. */
+static int gv_count(const struct SparseMatrix *M, Index r, Index c, Float v)
+{
+  int n = 0;
+  for (Index rr = 1; rr <= M->rows_; rr++)
+    for (Index e = M->rptr[rr]; e < M->rptr[rr + 1]; e++)
+      if (rr == r && M->cind[e] == c && M->nonz[e] == v) n++;
+  return n;
+}
+static void gv_assert_wf(const struct SparseMatrix *M)
+{
+  __CPROVER_assert(M->rcnt_ == M->rows_ && M->rnxt_ == M->rows_ + 1, "bounded: result is completely filled");
+  __CPROVER_assert(M->rows_ == 0 ? M->ncnt_ == 0 : (M->rptr[1] == 0 && M->rptr[M->rows_ + 1] == M->ncnt_), "bounded: first/last row pointer");
+  for (Index r = 1; r <= M->rows_; r++)
+    __CPROVER_assert(0 <= M->rptr[r] && M->rptr[r] <= M->rptr[r + 1] && M->rptr[r + 1] <= M->ncnt_, "bounded: row pointers monotone");
+  for (Index e = 0; e < M->ncnt_; e++)
+    __CPROVER_assert(1 <= M->cind[e] && M->cind[e] <= M->cols_, "bounded: column indices in range");
+}
+void h_transpose_rt(void)
+{
+  Index rows, cols;
+  rows = GV_RT_ROWS; cols = GV_RT_COLS;
+  struct SparseMatrix A;
+  SparseMatrix_ctor3(&A, GV_RT_NNZ, rows, cols);
+  for (Index r = 1; r <= rows; r++) {
+    SparseMatrix_new_row(&A);
+    while (A.ncnt_ < GV_RT_NNZ && cols >= 1) {
+      _Bool more; Index c; Float v;
+      if (!more) break;
+      __CPROVER_assume(1 <= c && c <= cols && v == v);
+      SparseMatrix_add_element(&A, v, c);
+    }
+  }
+  /* arbitrary triple (r0,c0,v0): equal counts for EVERY triple is equality of the entry multisets */
+  Index r0, c0; Float v0;
+  __CPROVER_assume(v0 == v0);
+  int nA = gv_count(&A, r0, c0, v0);
+  struct SparseMatrix *T = SparseMatrix_transpose(&A);
+  __CPROVER_assert(T->rows_ == cols && T->cols_ == rows && T->ncnt_ == A.ncnt_, "bounded: transpose swaps rows/cols, keeps nnz");
+  gv_assert_wf(T);
+  __CPROVER_assert(nA == gv_count(T, c0, r0, v0), "bounded: (r,c,v) occurs in A exactly as often as (c,r,v) in transpose(A)");
+  struct SparseMatrix *TT = SparseMatrix_transpose(T);
+  __CPROVER_assert(TT->rows_ == rows && TT->cols_ == cols && TT->ncnt_ == A.ncnt_, "bounded: double transpose restores the shape");
+  gv_assert_wf(TT);
+  __CPROVER_assert(nA == gv_count(TT, r0, c0, v0), "bounded: transpose(transpose(A)) has exactly the entries of A");
+  for (Index r = 1; r <= A.rows_; r++) {
+    __CPROVER_assert(TT->rptr[r + 1] - TT->rptr[r] == A.rptr[r + 1] - A.rptr[r], "bounded: double transpose keeps every row length");
+    for (Index e = TT->rptr[r]; e + 1 < TT->rptr[r + 1]; e++)
+      __CPROVER_assert(TT->cind[e] <= TT->cind[e + 1], "bounded: rows of a double transpose are sorted by column");
+  }
+  GV_CANARY("h_transpose_rt end");
 }
 
 void h_access(void)
